@@ -50,15 +50,23 @@ class Contract:
     def variant_names(self):
         return list(self.variants) if self.variants else ['']
 
-    @staticmethod
-    def _filter(d, pid):
-        """clauses may be tagged  name: (expr, [property ids])  - checked only under those properties, assumed by
-        every caller"""
+    NATIVE_SIDE = False     # set by pyvc/native.py
+
+    @classmethod
+    def _filter(cls, d, pid):
+        """clauses may be tagged  name: (expr, [tags]):  property ids - checked only under those properties (assumed by
+        every caller);  '__native__' - evaluated by the native harness only (e.g. exact-rational comparison up to
+        rounding);  '__proof__' - for the prover only (e.g. equality over the reals, which floats only approximate)"""
         out = {}
         for k, v in d.items():
             if isinstance(v, tuple):
                 expr, tags = v
-                if pid is None or pid in tags:
+                if '__native__' in tags and not cls.NATIVE_SIDE:
+                    continue
+                if '__proof__' in tags and cls.NATIVE_SIDE:
+                    continue
+                props = [t for t in tags if not t.startswith('__')]
+                if pid is None or not props or pid in props:
                     out[k] = expr
             else:
                 out[k] = v
